@@ -14,6 +14,12 @@ EXTENDS Base, Cond
 
 Undef        == [k |-> "undef", enc |-> "UNDEFINED", unp |-> FALSE]
 Unspec(why)  == [k |-> "unspec", enc |-> why, unp |-> FALSE]
+\* encodings of extensions the emulator documents as not implemented (VFP / Advanced SIMD): the only allowed outcomes are
+\* the Undefined Instruction exception and the not-implemented error - never execution as some other instruction
+Unimpl(why)  == [k |-> "unimpl", enc |-> why, unp |-> FALSE]
+\* hint / barrier space (PLD, PLI, PLDW, DMB, DSB, ISB, DBG, unallocated hints; partly UNPREDICTABLE or UNDEFINED): nothing
+\* architecturally visible may happen - NOP, UNDEFINED or the not-implemented error
+Nopish(why)  == [k |-> "nopish", enc |-> why, unp |-> FALSE]
 DPNames      == <<"AND", "EOR", "SUB", "RSB", "ADD", "ADC", "SBC", "RSC", "TST", "TEQ", "CMP", "CMN", "ORR", "MOV",
                   "BIC", "MVN">>
 SRNames      == <<"LSL", "LSR", "ASR", "ROR">>
@@ -304,7 +310,7 @@ ArmDPMisc(w, dx) ==
                       THEN (IF h \in 0..4
                             THEN [k |-> "hint", enc |-> "HINT_A1", h |-> <<"NOP", "YIELD", "WFE", "WFI", "SEV">>[h + 1],
                                   unp |-> Slice(w, 15, 8) # 240]
-                            ELSE Unspec("arm-hint-dbg-unallocated"))
+                            ELSE Nopish("arm-hint-dbg-unallocated"))
                       ELSE [k |-> "msr", enc |-> "MSR_i_A1", spsr |-> R = 1, mask |-> mask,
                             src |-> [t |-> "aimm", imm12 |-> Slice(w, 11, 0)],
                             unp |-> mask = 0 \/ Slice(w, 15, 12) # 15]
@@ -327,7 +333,7 @@ CoprocSpace(w, sfx, thumb) ==
       P == Bit(w, 24)  W == Bit(w, 21)
       C(enc, mem, unp) == [k |-> "coproc", enc |-> enc \o sfx, cp |-> cp, memop |-> mem, unp |-> unp]
   IN IF op1 \div 2 = 0 THEN Undef
-     ELSE IF cp \div 2 = 5 THEN Unspec("coproc-vfp-advsimd")
+     ELSE IF cp \div 2 = 5 THEN Unimpl("coproc-vfp-advsimd")
      ELSE IF cp \in {14, 15} THEN Unspec("coproc-cp14-cp15")
      ELSE IF op1 = 4 THEN C("MCRR", FALSE, t = 15 \/ t2 = 15 \/ (thumb /\ (t = 13 \/ t2 = 13)))
      ELSE IF op1 = 5 THEN C("MRRC", FALSE, t = 15 \/ t2 = 15 \/ t = t2 \/ (thumb /\ (t = 13 \/ t2 = 13)))
@@ -360,6 +366,9 @@ ArmUncond(w) ==
         imm |-> SignExtW(WOr(LSLw(ExtractW(w, 23, 0), 2), <<0, Bit(w, 24) * 2>>), 26)]
   ELSE IF Slice(w, 27, 20) = 87 /\ Slice(w, 7, 4) = 1
   THEN [k |-> "hint", enc |-> "CLREX_A1", h |-> "NOP", unp |-> Slice(w, 19, 8) # 4080 \/ Slice(w, 3, 0) # 15]
+  ELSE IF Slice(w, 27, 25) = 1 THEN Unimpl("arm-advsimd-dp")
+  ELSE IF Slice(w, 27, 24) = 4 /\ Bit(w, 20) = 0 THEN Unimpl("arm-advsimd-ls")
+  ELSE IF Slice(w, 27, 26) = 1 THEN Nopish("arm-memhint-barrier")
   ELSE IF Slice(w, 27, 26) = 3 /\ Slice(w, 25, 24) # 3 THEN CoprocSpace(w, "_A2", FALSE)
   ELSE Unspec("arm-unconditional")
 
@@ -652,7 +661,7 @@ T32LSSingle(w, dx) ==
       tbad == IF size = 4 THEN (IF load THEN (t = 15 /\ midIT) ELSE (t = 15 \/ (t = 13 /\ U = 0))) ELSE BadReg(t)
   IN IF sz = 3 \/ (signed /\ ~load) \/ (signed /\ sz = 2) THEN Undef
      ELSE IF (~load) /\ n = 15 THEN Undef
-     ELSE IF load /\ size < 4 /\ t = 15 THEN Unspec("t32-memory-hints")
+     ELSE IF load /\ size < 4 /\ t = 15 THEN Nopish("t32-memory-hints")
      ELSE IF load /\ n = 15
           THEN LS(nm \o "_lit_T", TRUE, size, signed, t, 15, TRUE, U = 1, FALSE, ImmOff(Slice(w, 11, 0)), FALSE, TRUE,
                   tbad \/ (size < 4 /\ t = 13))
@@ -752,7 +761,7 @@ T32BranchMisc(w, dx) ==
                         IF Slice(w, 7, 0) \in 0..4
                         THEN [k |-> "hint", enc |-> "HINT_T2", h |-> <<"NOP", "YIELD", "WFE", "WFI", "SEV">>[Slice(w, 7, 0) + 1],
                               unp |-> Slice(w, 19, 16) # 15 \/ Bit(w, 13) # 0 \/ Bit(w, 11) # 0]
-                        ELSE Unspec("t32-hint-dbg-unallocated")
+                        ELSE Nopish("t32-hint-dbg-unallocated")
                    [] op = 58 ->
                         LET imod == Slice(w, 10, 9)  Mb == Bit(w, 8)  aif == Slice(w, 7, 5)  mode == Slice(w, 4, 0) IN
                         [k |-> "cps", enc |-> "CPS_T2", enable |-> imod = 2, disable |-> imod = 3, a |-> Bit(w, 7) = 1,
@@ -763,6 +772,11 @@ T32BranchMisc(w, dx) ==
                    [] op = 59 /\ Slice(w, 7, 4) = 2 /\ dx.arch >= 6 ->
                         [k |-> "hint", enc |-> "CLREX_T1", h |-> "NOP",
                          unp |-> Slice(w, 19, 16) # 15 \/ Slice(w, 11, 8) # 15 \/ Slice(w, 3, 0) # 15 \/ Bit(w, 13) # 0]
+                   \* ENTERX / LEAVEX (ThumbEE): the emulator switches instruction-set state regardless of its have_thumbee setting
+                   \* (its tests assert that); not specified
+                   [] op = 59 /\ Slice(w, 7, 4) \in {0, 1} -> Unspec("t32-enterx-leavex")
+                   [] op = 59 /\ Slice(w, 7, 4) > 2 -> Nopish("t32-barrier")
+                   [] op = 59 /\ Slice(w, 7, 4) = 2 /\ dx.arch < 6 -> Unspec("t32-clrex-pre-v6")
                    [] op = 61 ->
                         IF dx.hyp /\ Slice(w, 7, 0) # 0 THEN Undef          \* SUBS PC, LR is UNDEFINED in Hyp mode (decode-time check)
                         ELSE
@@ -782,13 +796,13 @@ T32BranchMisc(w, dx) ==
 
 T32Decode(w, dx) ==
   LET op1 == Slice(w, 28, 27)  op2 == Slice(w, 26, 20)  op == Bit(w, 15) IN
-  CASE op1 = 1 -> IF op2 \div 64 = 1 THEN (IF Slice(w, 25, 24) = 3 THEN Unspec("t32-advsimd-dp") ELSE CoprocSpace(w, "_T1", TRUE))
+  CASE op1 = 1 -> IF op2 \div 64 = 1 THEN (IF Slice(w, 25, 24) = 3 THEN Unimpl("t32-advsimd-dp") ELSE CoprocSpace(w, "_T1", TRUE))
                   ELSE IF op2 \div 32 = 1 THEN T32DPShiftedReg(w)
                   ELSE IF (op2 \div 4) % 2 = 0 THEN T32LSM(w, dx) ELSE T32DualExclTB(w, dx)
     [] op1 = 2 -> IF op = 1 THEN T32BranchMisc(w, dx)
                   ELSE IF (op2 \div 32) % 2 = 0 THEN T32DPModImm(w) ELSE T32DPPlainImm(w)
-    [] op1 = 3 -> IF op2 \div 64 = 1 THEN (IF Slice(w, 25, 24) = 3 THEN Unspec("t32-advsimd-dp") ELSE CoprocSpace(w, "_T2", TRUE))
-                  ELSE IF op2 \div 32 = 0 THEN (IF op2 \div 16 = 1 /\ op2 % 2 = 0 THEN Unspec("t32-advsimd-ls") ELSE T32LSSingle(w, dx))
+    [] op1 = 3 -> IF op2 \div 64 = 1 THEN (IF Slice(w, 25, 24) = 3 THEN Unimpl("t32-advsimd-dp") ELSE CoprocSpace(w, "_T2", TRUE))
+                  ELSE IF op2 \div 32 = 0 THEN (IF op2 \div 16 = 1 /\ op2 % 2 = 0 THEN Unimpl("t32-advsimd-ls") ELSE T32LSSingle(w, dx))
                   ELSE IF op2 \div 16 = 2 THEN T32DPReg(w, dx)
                   ELSE IF op2 \div 8 = 6 THEN T32Mul(w, dx)
                   ELSE T32LongMul(w, dx)
